@@ -378,7 +378,13 @@ def depth_programs(tier, seed):
     progs.append(DepthProg('depth/chain2', [Def('N', 'x'), Def('M', '`N', body_items=[Use('N', None, '')]), Use('M', None, '\n')], rd=S))
     progs.append(DepthProg('depth/chain3', [Def('O', 'x'), Def('N', '`O', body_items=[Use('O', None, '')]),
                                             Def('M', '`N', body_items=[Use('N', None, '')]), Use('M', None, '\n')], rd=S))
+    # a macro whose text uses a macro with a LONGER name starting with its own name (no recursion), and its own name inside a string
+    progs.append(DepthProg('depth/chain-prefix-names', [Def('MM', 'x'), Def('M', '`MM', body_items=[Use('MM', None, '')]), Use('M', None, '\n')], rd=S))
+    progs.append(DepthProg('depth/own-name-in-string', [Def('M', '"`M" x'), Use('M', None, '\n')], rd=S))
     progs.append(DepthProg('depth/inc1', [Inc('f.svh'), T('z', '\n')], {'f.svh': [T('f0', '\n')]}, idp=S))
+    # sibling includes are on the same level: the nesting count does not grow along a file
+    progs.append(DepthProg('depth/inc-siblings', [Inc('f.svh'), Inc('g.svh'), Inc('f.svh'), T('z', '\n')], {'f.svh': [T('f0', '\n')], 'g.svh': [T('g0', '\n')]}, idp=S))
+    progs.append(DepthProg('depth/inc-sibling-then-macro', [Inc('f.svh'), Def('M', 'x'), Use('M', None, '\n')], {'f.svh': [T('f0', '\n')]}, idp=S, rd=S))
     progs.append(DepthProg('depth/inc1-both', [Inc('f.svh'), T('z', '\n')], {'f.svh': [T('f0', '\n')]}, idp=S, rd=S))
     progs.append(DepthProg('depth/inc-macro', [Inc('f.svh'), T('z', '\n')], {'f.svh': [Def('M', 'x'), Use('M', None, '\n')]}, idp=S))
     progs.append(DepthProg('depth/inc-macro-chain', [Inc('f.svh'), T('z', '\n')],
@@ -410,6 +416,8 @@ def depth_programs(tier, seed):
             items.append(Def('M%d' % i, '`M%d' % (i + 1), body_items=[Use('M%d' % (i + 1), None, '')]))
         items.append(Use('M1', None, '\n'))
         progs.append(DepthProg('chain/macro-%d' % n, items))
+    # 70 sibling includes in one file are legal (the limit bounds nesting, not the number of includes)
+    progs.append(DepthProg('chain/flat-70-includes', [Inc('f.svh') for _ in range(70)] + [T('z', '\n')], {'f.svh': [T('f0', '\n')]}))
     return progs
 
 
@@ -458,6 +466,10 @@ def totality_programs(tier, seed):
     # `include through a macro whose expansion is short, empty, blank, non-ASCII, unbalanced quotes
     for i, body in enumerate(['q', '', ' ', '"', '""', '"a', '\u00e9', '<>', '<', '"\u00e9"', '" "', 'a b']):
         P.append(IncProg('total/inc-macro/%d' % i, [Def('M', body if body else None), Inc('x', 'M'), T('z', '\n')], ['A'], {}, include_paths=('p1',)))
+    # macro texts that are blank only / defaults followed by blanks / a macro defining a macro from an empty actual
+    P.append(Prog('total/blank-macro-text', [Def('G', '  '), Use('G', None, '\n'), Def('H', ' '), Cond(False, [('G', [T('yg', '\n')])], None), T('z', '\n')], ['A']))
+    P.append(Prog('total/default-with-blanks', [Def('ADD', 'a+b', [('a', '1 '), ('b', '2  ')]), Use('ADD', ['3'], '\n'), Use('ADD', [None, '4'], '\n')], ['A']))
+    P.append(Prog('total/define-from-empty-actual', [Def('MK', '`define X v', [('v', None)]), Use('MK', [None], '\n'), T('z', '\n')], ['A']))
     # comments / strings / identifiers with multi-byte characters at the very end of the input, every piece kind last
     for i, tail in enumerate(['// caf\u00e9', '/* \u00fc */', '"\u00df"', '\\esc\u00e9 ', 'x // \u00e9\n', '`define M \u00e9', '`M', '`ifdef A\n\u00e9 x\n`endif', 'a /*\u00e9*/b']):
         P.append(Prog('total/tail/%d' % i, [T('module', ' '), T('m;', ' ')], ['A']))
